@@ -369,3 +369,78 @@ def mk_row(ev: Evaluator, st: State, prog: Program, prefix: str, overrides: Opti
             fields[name] = S(f'{prefix}{name}')
     fields.update(overrides or {})
     return ev.new_inst(st, td, fields)
+
+
+# --------------------------------------------------------------------------------------
+# memoising decorators: what the memoised body reads besides its arguments
+# --------------------------------------------------------------------------------------
+
+MEMO_DECORATORS = ('lru_cache', 'cache', 'cached_property')
+
+
+def memo_decorator(f) -> Optional[str]:
+    for d in f.decorators:
+        if d.split('(')[0].split('.')[-1] in MEMO_DECORATORS:
+            return d
+    return None
+
+
+def self_field_reads(prog: Program, ci: ClassInfo, func, seen: Optional[set] = None) -> set:
+    """Instance fields read by func, transitively through self.method() / self.property."""
+    seen = seen if seen is not None else set()
+    if func.fq in seen:
+        return set()
+    seen.add(func.fq)
+    me = func.positional[0] if func.positional else 'self'
+    out = set()
+    for n in ast.walk(func.node):
+        if isinstance(n, ast.Attribute) and isinstance(n.value, ast.Name) and n.value.id == me and isinstance(n.ctx, ast.Load):
+            m = prog.find_method(ci, n.attr)
+            if m is not None:
+                out |= self_field_reads(prog, ci, m, seen)
+            elif prog.find_class_attr(ci, n.attr) is None or True:
+                out.add(n.attr)
+    return out
+
+
+def fields_written_after_init(prog: Program, ci: ClassInfo) -> Dict[str, str]:
+    """field -> the method / setter that stores it, for stores outside __init__ / __post_init__ (self.f = ...), plus
+    the public plain attributes of the class: anything a caller may assign after construction."""
+    out: Dict[str, str] = {}
+    for c in prog.mro(ci):
+        for nm, m in list(c.methods.items()) + list(c.setters.items()):
+            if nm in ('__init__', '__post_init__', '__new__'):
+                continue
+            me = m.positional[0] if m.positional else 'self'
+            for n in ast.walk(m.node):
+                if isinstance(n, ast.Attribute) and isinstance(n.ctx, ast.Store) and isinstance(n.value, ast.Name) and n.value.id == me:
+                    out.setdefault(n.attr, m.qualname)
+    init = prog.find_method(ci, '__init__')
+    if init is not None:
+        me = init.positional[0]
+        for n in ast.walk(init.node):
+            if isinstance(n, ast.Attribute) and isinstance(n.ctx, ast.Store) and isinstance(n.value, ast.Name) and n.value.id == me \
+                    and not n.attr.startswith('_'):
+                out.setdefault(n.attr, 'the caller (public attribute)')
+    return out
+
+
+def reads_preferred_units(prog: Program, func, depth: int = 2, seen: Optional[set] = None) -> Optional[str]:
+    """`PreferredUnits.<x>` read by func or by package functions it calls by name (to the given depth)."""
+    seen = seen if seen is not None else set()
+    if func.fq in seen:
+        return None
+    seen.add(func.fq)
+    for n in ast.walk(func.node):
+        if isinstance(n, ast.Attribute) and isinstance(n.value, ast.Name) and n.value.id == 'PreferredUnits':
+            return f'{func.qualname} reads PreferredUnits.{n.attr}'
+    if depth <= 0:
+        return None
+    for n in ast.walk(func.node):
+        if isinstance(n, ast.Call) and isinstance(n.func, ast.Name):
+            r = prog.resolve(func.module, n.func.id)
+            if r and r[0] == 'func':
+                hit = reads_preferred_units(prog, r[1], depth - 1, seen)
+                if hit:
+                    return hit
+    return None
